@@ -193,6 +193,15 @@ def tree_json(node):
             "exposed": [{"name": nm, "c": i, "p": p} for (nm, i, p) in node.expose]}
 
 
+def tree_json_any(node):
+    """as tree_json, for parametric leaves too (their matrix at the default value is irrelevant to the structure)"""
+    if node.kind == "leaf":
+        return {"leaf": {"pins": list(node.pins), "idx": list(node.idx), "S": gen.mat_json(node.S0)}}
+    return {"children": [tree_json_any(ch) for ch, _ in node.children],
+            "links": [{"a": i, "p": p, "b": j, "q": q} for (i, p, j, q) in node.links],
+            "exposed": [{"name": nm, "c": i, "p": p} for (nm, i, p) in node.expose]}
+
+
 def ptree_json(node):
     """the parametric hierarchy as the request of the driver op `phsolve` (rename tables as (new, old) pairs in listing order)"""
     if node.kind == "leaf":
